@@ -219,14 +219,378 @@ Qed.
 (* ---------- without the wf_read hypothesis: over the model states built by ops 10 / 11 / 15 ---------- *)
 Theorem read_at_degraded_built_lemma : forall s blob off len blank fail,
   built s ->
-  Forall (fun tr => padded (t_len tr) <= s_target s) (s_tracts s) ->
   (forall k, (k < length (s_stripes s))%nat ->
      length (nth k (s_hosts s) []) = (s_n s + s_m s)%nat /\ (down_count s k blank fail <= s_m s)%nat) ->
   read_at true s true blank fail blob off len = read_at true s false [] [] blob off len.
 Proof.
-  intros s blob off len blank fail B Hpad Hk. apply read_at_degraded_eq_lemma.
+  intros s blob off len blank fail B Hk. apply read_at_degraded_eq_lemma.
   intros t _. destruct (find_in_stripes t (s_stripes s) 0) as [[[k j] e]|] eqn:Ef; [|exact I].
   destruct (find_in_stripes_spec _ _ _ _ _ _ Ef) as [k' [Ek [Hlt _]]]. simpl in Ek. subst k'.
   destruct (Hk k Hlt) as [Hh Hc]. split; [|exact Hc].
   apply built_wf_read; assumption.
+Qed.
+
+(* ====================================================================================================
+   exact OR fail closed, at the level of Blob.ReadAt
+   ==================================================================================================== *)
+Definition failed_res (w : N) : tres := {| r_wanted := w; r_read := 0; r_err := 2; r_buf := zeros w |}.
+
+Lemma filter_filter_le : forall A (up r g : A -> bool) l,
+  (forall x, In x l -> r x = true -> g x = true -> up x = true) ->
+  (length (filter g (filter r l)) <= length (filter up l))%nat.
+Proof.
+  induction l as [|x l IH]; intro H; [simpl; lia|].
+  assert (IH' := IH (fun y Hy => H y (or_intror Hy))).
+  cbn [filter]. destruct (r x) eqn:Er.
+  - cbn [filter]. destruct (g x) eqn:Eg.
+    + rewrite (H x (or_introl eq_refl) Er Eg). simpl. lia.
+    + destruct (up x); simpl; lia.
+  - destruct (up x); simpl; lia.
+Qed.
+
+Section Dichotomy.
+Variables (s : st) (k j : nat) (e : ext) (tr : tract).
+Hypothesis W : wf_read s k j e tr.
+
+(* the reconstruction branch with too few good answers is exactly the failed result *)
+Lemma read_rs_few_failed : forall blank fail o w,
+  down blank fail (nth j (nth k (s_hosts s) []) 0) = true -> o < t_len tr -> 0 < w ->
+  let hosts := nth k (s_hosts s) [] in
+  let hj := nth j hosts 0 in
+  let rlen := if e_len e <=? o then 0 else N.min w (e_len e - o) in
+  let req := filter (fun i => negb (Nat.eqb i j) && negb (N.eqb (nth i hosts 0) hj)
+                              && negb (memN (nth i hosts 0) blank)) (seq 0 (length hosts)) in
+  let good := filter (fun i => negb (memN (nth i hosts 0) fail)
+                               && N.eqb (ts_read_count (s_target s) (e_off e + o) rlen) rlen) req in
+  (length good < s_n s)%nat ->
+  read_rs true s k j e blank fail o w = failed_res w.
+Proof.
+  intros blank fail o w Hd Ho Hw hosts hj rlen req good Hlt. unfold read_rs. cbv zeta.
+  fold hosts. fold hj. fold rlen.
+  assert (Hz : true && (rlen =? 0) = false).
+  { cbn [andb]. apply N.eqb_neq. unfold rlen. rewrite (wr_len _ _ _ _ _ W).
+    destruct (t_len tr <=? o) eqn:E; [apply N.leb_le in E; lia | apply N.leb_gt in E; lia]. }
+  rewrite Hz. unfold down in Hd. fold hosts in Hd. fold hj in Hd. rewrite Hd. cbn [negb].
+  fold req. destruct (Nat.ltb (length req) (s_n s)) eqn:E1; [reflexivity|].
+  fold good. apply Nat.ltb_lt in Hlt. rewrite Hlt. reflexivity.
+Qed.
+
+(* one tract: exact, or the failed result *)
+Lemma read_rs_dichotomy : forall blank fail o w, 0 < w ->
+  read_rs true s k j e blank fail o w = read_repl tr o w \/
+  read_rs true s k j e blank fail o w = failed_res w.
+Proof.
+  intros blank fail o w Hw.
+  destruct (down blank fail (nth j (nth k (s_hosts s) []) 0)) eqn:Hd.
+  - destruct (N.le_gt_cases (t_len tr) o) as [Ho | Ho].
+    + left. apply read_rs_fixed_beyond; assumption.
+    + set (hosts := nth k (s_hosts s) []). set (hj := nth j hosts 0).
+      set (rlen := if e_len e <=? o then 0 else N.min w (e_len e - o)).
+      set (req := filter (fun i => negb (Nat.eqb i j) && negb (N.eqb (nth i hosts 0) hj)
+                              && negb (memN (nth i hosts 0) blank)) (seq 0 (length hosts))).
+      set (good := filter (fun i => negb (memN (nth i hosts 0) fail)
+                               && N.eqb (ts_read_count (s_target s) (e_off e + o) rlen) rlen) req).
+      destruct (le_lt_dec (s_n s) (length good)) as [Hge | Hlt].
+      * left. apply (read_rs_reconstruct_eq_fixed s k j e tr W blank fail o w Hd Hge Hw Ho).
+      * right. apply (read_rs_few_failed blank fail o w Hd Ho Hw Hlt).
+  - left. apply (read_rs_direct_eq_fixed s k j e tr W blank fail o w Hd Hw).
+Qed.
+
+(* more than m holders of the stripe unavailable, the direct one among them, and something to fetch: failed *)
+Lemma read_rs_too_many_down : forall blank fail o w,
+  down blank fail (nth j (nth k (s_hosts s) []) 0) = true ->
+  (s_m s < down_count s k blank fail)%nat -> o < t_len tr -> 0 < w ->
+  read_rs true s k j e blank fail o w = failed_res w.
+Proof.
+  intros blank fail o w Hd Hc Ho Hw. apply read_rs_few_failed; try assumption. cbv zeta.
+  set (hosts := nth k (s_hosts s) []).
+  pose proof (wr_hosts _ _ _ _ _ W) as Hhl. fold hosts in Hhl.
+  set (up := fun i => negb (down blank fail (nth i hosts 0))).
+  match goal with |- (length (filter ?g (filter ?r _)) < _)%nat =>
+    assert (Hle : (length (filter g (filter r (seq 0 (length hosts)))) <= length (filter up (seq 0 (length hosts))))%nat)
+  end.
+  { apply filter_filter_le. intros i _ Hr Hg. unfold up, down.
+    apply andb_true_iff in Hr. destruct Hr as [_ Hb]. apply andb_true_iff in Hg. destruct Hg as [Hf _].
+    apply negb_true_iff in Hb. apply negb_true_iff in Hf. rewrite Hb, Hf. reflexivity. }
+  pose proof (filter_partition_length _ (fun i => down blank fail (nth i hosts 0)) (seq 0 (length hosts))) as F.
+  rewrite seq_length in F.
+  pose proof (filter_nth_seq (down blank fail) hosts []) as Q. simpl in Q.
+  unfold down_count in Hc. fold hosts in Hc. fold up in F. lia.
+Qed.
+
+End Dichotomy.
+
+(* ---------- the fold ---------- *)
+Definition repl_like (x : tres) : Prop :=
+  (r_err x = 0 \/ r_err x = 1) /\ r_read x <= r_wanted x /\ length (r_buf x) = N.to_nat (r_wanted x).
+
+Lemma read_repl_like : forall tr o w, repl_like (read_repl tr o w).
+Proof.
+  intros tr o w. unfold repl_like, read_repl. cbv zeta. cbn [r_err r_read r_wanted r_buf].
+  set (rd := if t_len tr <=? o then 0 else N.min w (t_len tr - o)).
+  assert (Hrd : rd <= w) by (unfold rd; destruct (t_len tr <=? o); lia).
+  split; [destruct (rd <? w); [right | left]; reflexivity|]. split; [exact Hrd|].
+  rewrite app_length, map_length, positions_length. unfold zeros. rewrite repeat_length. lia.
+Qed.
+
+(* what the fold has accumulated after a prefix of normal / EOF results that are not the last ones *)
+Fixpoint csum (pre : list tres) : N :=
+  match pre with [] => 0 | x :: t => (if r_err x =? 0 then r_read x else r_wanted x) + csum t end.
+
+Lemma fold_results_prefix : forall pre rest pad acc,
+  rest <> [] -> Forall (fun x => r_err x = 0 \/ r_err x = 1) pre ->
+  fold_results (pre ++ rest) pad acc = fold_results rest pad (acc + csum pre).
+Proof.
+  induction pre as [|x pre IH]; intros rest pad acc Hr Hp; [simpl; rewrite N.add_0_r; reflexivity|].
+  inversion Hp as [|? ? Hx Hp']; subst. cbn [app fold_results csum].
+  destruct (pre ++ rest) eqn:Ep; [destruct pre; [contradiction | discriminate]|]. rewrite <- Ep.
+  destruct Hx as [Hx | Hx]; rewrite Hx; cbn [N.eqb]; rewrite (IH rest pad _ Hr Hp'); f_equal; lia.
+Qed.
+
+Lemma fold_results_ge : forall rs pad acc, acc <= fst (fold_results rs pad acc).
+Proof.
+  induction rs as [|x rs IH]; intros pad acc; [simpl; lia|].
+  cbn [fold_results]. destruct (r_err x) as [|p]; [|destruct p].
+  - destruct rs; [simpl; lia|]. specialize (IH pad (acc + r_read x)). lia.
+  - simpl. lia.
+  - simpl. lia.
+  - destruct rs; [destruct pad; simpl; lia|]. specialize (IH pad (acc + r_wanted x)). lia.
+Qed.
+
+Lemma csum_le_len : forall pre, Forall repl_like pre -> (N.to_nat (csum pre) <= length (flat_map r_buf pre))%nat.
+Proof.
+  induction pre as [|x pre IH]; intro H; [simpl; lia|].
+  inversion H as [|? ? [_ [Hr Hl]] Hp]; subst. cbn [csum flat_map]. rewrite app_length, Hl.
+  specialize (IH Hp). destruct (r_err x =? 0); lia.
+Qed.
+
+(* two result lists that agree entry by entry except that entries of the first may be the failed result *)
+Lemma results_split : forall (Rs Ps : list tres),
+  Forall2 (fun r p => r = p \/ r = failed_res (r_wanted p)) Rs Ps ->
+  Rs = Ps \/ exists pre p post post', Rs = pre ++ failed_res (r_wanted p) :: post /\ Ps = pre ++ p :: post'.
+Proof.
+  induction 1 as [|r p Rs Ps Hrp HF IH]; [left; reflexivity|].
+  destruct Hrp as [-> | ->].
+  - destruct IH as [-> | [pre [q [post [post' [-> ->]]]]]]; [left; reflexivity|].
+    right. exists (p :: pre), q, post, post'. split; reflexivity.
+  - right. exists [], p, Rs, Ps. split; reflexivity.
+Qed.
+
+Lemma firstn_app_le : forall A (a b : list A) k, (k <= length a)%nat -> firstn k (a ++ b) = firstn k a.
+Proof.
+  intros A a b k H. rewrite firstn_app. replace (k - length a)%nat with 0%nat by lia.
+  cbn [firstn]. apply app_nil_r.
+Qed.
+
+Lemma firstn_firstn_le : forall A (l : list A) a b, (a <= b)%nat -> firstn a (firstn b l) = firstn a l.
+Proof. intros. rewrite firstn_firstn. f_equal. lia. Qed.
+
+(* the core: outcome of the two folds when the first differing entry is a failed result *)
+Lemma fold_fail_closed_core : forall pre p post post' pad,
+  Forall repl_like pre ->
+  let Rs := pre ++ failed_res (r_wanted p) :: post in
+  let Ps := pre ++ p :: post' in
+  let R := fold_results Rs pad 0 in
+  let P := fold_results Ps pad 0 in
+  snd R = 2 /\ fst R = csum pre /\ fst R <= fst P /\
+  firstn (N.to_nat (fst R)) (flat_map r_buf Rs) = firstn (N.to_nat (fst R)) (firstn (N.to_nat (fst P)) (flat_map r_buf Ps)).
+Proof.
+  intros pre p post post' pad Hpre Rs Ps R P.
+  assert (Hpre' : Forall (fun x => r_err x = 0 \/ r_err x = 1) pre).
+  { eapply Forall_impl; [|exact Hpre]. intros x [H _]. exact H. }
+  assert (HR : R = (csum pre, 2)).
+  { unfold R, Rs. rewrite fold_results_prefix by (try discriminate; assumption). reflexivity. }
+  assert (HP : csum pre <= fst P).
+  { unfold P, Ps. rewrite fold_results_prefix by (try discriminate; assumption).
+    pose proof (fold_results_ge (p :: post') pad (0 + csum pre)). lia. }
+  rewrite HR. cbn [fst snd]. repeat split; try assumption.
+  pose proof (csum_le_len pre Hpre) as Hlen.
+  unfold Rs, Ps. rewrite !flat_map_app.
+  rewrite firstn_firstn_le by lia. rewrite !firstn_app_le by exact Hlen. reflexivity.
+Qed.
+
+(* ---------- the shape of read_at: the consulted (tract, in-tract offset, length) ranges and the fold ---------- *)
+Definition consulted (blob : list nat) (off len : N) : list (nat * (N * N)) :=
+  if len =? 0 then [] else
+  let start := off / TL in
+  let endt := (off + len + TL - 1) / TL in
+  let nt := N.of_nat (length blob) in
+  if nt <=? start then [] else
+  let last := N.min (endt + 1) nt in
+  let got := last - start in
+  let pad_all := got =? endt + 1 - start in
+  let cnt := if pad_all then got - 1 else got in
+  let ts := firstn (N.to_nat cnt) (skipn (N.to_nat start) blob) in
+  combine ts (ranges (length ts) off len 0).
+
+Definition pad_all_of (blob : list nat) (off len : N) : bool :=
+  let start := off / TL in
+  let endt := (off + len + TL - 1) / TL in
+  (N.min (endt + 1) (N.of_nat (length blob)) - start) =? endt + 1 - start.
+
+Definition results_of (s : st) (rs : bool) (blank fail : list N) (blob : list nat) (off len : N) : list tres :=
+  map (fun p => read_tract true s rs blank fail (fst p) (fst (snd p)) (snd (snd p))) (consulted blob off len).
+
+Lemma read_at_shape : forall s rs blank fail blob off len,
+  (len =? 0) = false -> (N.of_nat (length blob) <=? off / TL) = false ->
+  read_at true s rs blank fail blob off len =
+  (fst (fold_results (results_of s rs blank fail blob off len) (pad_all_of blob off len) 0),
+   snd (fold_results (results_of s rs blank fail blob off len) (pad_all_of blob off len) 0),
+   firstn (N.to_nat (fst (fold_results (results_of s rs blank fail blob off len) (pad_all_of blob off len) 0)))
+          (flat_map r_buf (results_of s rs blank fail blob off len))).
+Proof.
+  intros s rs blank fail blob off len E1 E2. unfold read_at. rewrite E1. cbv zeta. rewrite E2.
+  unfold results_of, consulted, pad_all_of. rewrite E1. cbv zeta. rewrite E2.
+  destruct (fold_results _ _ 0) as [rd err]. reflexivity.
+Qed.
+
+Lemma consulted_ok : forall blob off len, len <> 0 ->
+  Forall (fun p => In (fst p) blob /\ 0 < snd (snd p)) (consulted blob off len).
+Proof.
+  intros blob off len El. unfold consulted.
+  destruct (len =? 0); [constructor|]. cbv zeta.
+  destruct (N.of_nat (length blob) <=? off / TL); [constructor|].
+  set (start := off / TL). set (endt := (off + len + TL - 1) / TL).
+  set (nt := N.of_nat (length blob)).
+  set (last := N.min (endt + 1) nt). set (got := last - start).
+  set (pad_all := got =? endt + 1 - start).
+  set (cnt := if pad_all then got - 1 else got).
+  set (ts := firstn (N.to_nat cnt) (skipn (N.to_nat start) blob)).
+  set (rgs := ranges (length ts) off len 0).
+  assert (Hpos : Forall (fun p => 0 < snd p) rgs).
+  { unfold rgs. apply ranges_pos; [lia|].
+    rewrite N.add_0_r. fold start. fold endt.
+    assert (Hlen : (length ts <= N.to_nat cnt)%nat) by (unfold ts; rewrite firstn_length; lia).
+    assert (Hcnt : cnt <= endt - start).
+    { unfold cnt, pad_all. destruct (got =? endt + 1 - start) eqn:Eg.
+      - apply N.eqb_eq in Eg. lia.
+      - apply N.eqb_neq in Eg. unfold got, last in *. lia. }
+    lia. }
+  apply Forall_forall. intros [t [o w]] Hin. cbn [fst snd]. split.
+  - apply in_combine_l in Hin. unfold ts in Hin. apply firstn_in in Hin.
+    rewrite <- (firstn_skipn (N.to_nat start) blob). apply in_or_app. right. exact Hin.
+  - apply in_combine_r in Hin. rewrite Forall_forall in Hpos. apply (Hpos (o, w) Hin).
+Qed.
+
+(* entry by entry: the RS-side result is the replicated one or the failed one *)
+Lemma results_related : forall s blob off len blank fail,
+  blob_ok s blob -> len <> 0 ->
+  Forall2 (fun r p => r = p \/ r = failed_res (r_wanted p))
+          (results_of s true blank fail blob off len) (results_of s false [] [] blob off len) /\
+  Forall repl_like (results_of s false [] [] blob off len).
+Proof.
+  intros s blob off len blank fail Hok El. unfold results_of.
+  pose proof (consulted_ok blob off len El) as C.
+  induction (consulted blob off len) as [|[t [o w]] l IH]; [split; constructor|].
+  inversion C as [|? ? [Ht Hw] C']; subst. cbn [fst snd] in *. destruct (IH C') as [F2 FR].
+  cbn [map fst snd]. split.
+  - constructor; [|exact F2]. unfold read_tract. specialize (Hok t Ht).
+    destruct (find_in_stripes t (s_stripes s) 0) as [[[k j] e]|]; [|left; reflexivity].
+    destruct (read_rs_dichotomy s k j e _ Hok blank fail o w Hw) as [-> | ->]; [left; reflexivity|].
+    right. reflexivity.
+  - constructor; [|exact FR]. unfold read_tract. apply read_repl_like.
+Qed.
+
+Lemma Forall_app_l : forall A (P : A -> Prop) a b, Forall P (a ++ b) -> Forall P a.
+Proof. intros A P a b H. apply Forall_app in H. destruct H. assumption. Qed.
+
+(* THE DICHOTOMY: exact, or the error class with a prefix of the replicated blob's bytes *)
+Theorem read_at_exact_or_fail_closed_lemma : forall s blob off len blank fail,
+  blob_ok s blob ->
+  let R := read_at true s true blank fail blob off len in
+  let P := read_at true s false [] [] blob off len in
+  R = P \/
+  (snd (fst R) = 2 /\ fst (fst R) <= fst (fst P) /\ snd R = firstn (N.to_nat (fst (fst R))) (snd P)).
+Proof.
+  intros s blob off len blank fail Hok R P.
+  destruct (len =? 0) eqn:E1; [left; unfold R, P, read_at; rewrite E1; reflexivity|].
+  destruct (N.of_nat (length blob) <=? off / TL) eqn:E2;
+    [left; unfold R, P, read_at; rewrite E1; cbv zeta; rewrite E2; reflexivity|].
+  assert (El : len <> 0) by (apply N.eqb_neq; exact E1).
+  destruct (results_related s blob off len blank fail Hok El) as [F2 FR].
+  unfold R, P. rewrite !read_at_shape by assumption.
+  set (Rs := results_of s true blank fail blob off len) in *.
+  set (Ps := results_of s false [] [] blob off len) in *.
+  destruct (results_split Rs Ps F2) as [Heq | [pre [p [post [post' [HR HP]]]]]].
+  - left. rewrite Heq. reflexivity.
+  - right. rewrite HR, HP. rewrite HP in FR. apply Forall_app_l in FR.
+    destruct (fold_fail_closed_core pre p post post' (pad_all_of blob off len) FR) as [A [B [C D]]].
+    cbn [fst snd]. repeat split; assumption.
+Qed.
+
+(* bytes requested from the first i consulted tracts *)
+Definition req_before (blob : list nat) (off len : N) (i : nat) : N :=
+  fold_right (fun p a => snd (snd p) + a) 0 (firstn i (consulted blob off len)).
+
+Lemma csum_le_wanted : forall pre, Forall repl_like pre -> csum pre <= sum_wanted pre.
+Proof.
+  induction pre as [|x pre IH]; intro H; [simpl; lia|].
+  inversion H as [|? ? [_ [Hr _]] Hp]; subst. cbn [csum sum_wanted]. specialize (IH Hp).
+  destruct (r_err x =? 0); lia.
+Qed.
+
+Lemma sum_wanted_firstn_mono : forall l a b, (a <= b)%nat -> sum_wanted (firstn a l) <= sum_wanted (firstn b l).
+Proof.
+  induction l as [|x l IH]; intros a b H; [destruct a; destruct b; simpl; lia|].
+  destruct a as [|a]; [simpl; lia|]. destruct b as [|b]; [lia|].
+  cbn [firstn sum_wanted]. specialize (IH a b ltac:(lia)). lia.
+Qed.
+
+Lemma sum_wanted_results : forall s blob off len i,
+  sum_wanted (firstn i (results_of s false [] [] blob off len)) = req_before blob off len i.
+Proof.
+  intros s blob off len i. unfold results_of, req_before. rewrite firstn_map.
+  induction (firstn i (consulted blob off len)) as [|[t [o w]] l IH]; [reflexivity|].
+  cbn [map sum_wanted fold_right fst snd]. rewrite IH. reflexivity.
+Qed.
+
+(* FAIL CLOSED at blob level: some consulted tract needs bytes from a stripe with more than m unavailable holders,
+   its direct piece among them *)
+Theorem read_at_fail_closed_blob_lemma : forall s blob off len blank fail i t o w k j e,
+  blob_ok s blob ->
+  nth_error (consulted blob off len) i = Some (t, (o, w)) ->
+  find_in_stripes t (s_stripes s) O = Some (k, j, e) ->
+  down blank fail (nth j (nth k (s_hosts s) []) 0) = true ->
+  (s_m s < down_count s k blank fail)%nat ->
+  o < t_len (nth t (s_tracts s) dummy_tract) ->
+  let R := read_at true s true blank fail blob off len in
+  let P := read_at true s false [] [] blob off len in
+  snd (fst R) = 2 /\ fst (fst R) <= req_before blob off len i /\
+  fst (fst R) <= fst (fst P) /\ snd R = firstn (N.to_nat (fst (fst R))) (snd P).
+Proof.
+  intros s blob off len blank fail i t o w k j e Hok Hnth Hf Hd Hc Ho R P.
+  destruct (len =? 0) eqn:E1; [unfold consulted in Hnth; rewrite E1 in Hnth; destruct i; discriminate|].
+  destruct (N.of_nat (length blob) <=? off / TL) eqn:E2;
+    [unfold consulted in Hnth; rewrite E1 in Hnth; cbv zeta in Hnth; rewrite E2 in Hnth; destruct i; discriminate|].
+  assert (El : len <> 0) by (apply N.eqb_neq; exact E1).
+  destruct (results_related s blob off len blank fail Hok El) as [F2 FR].
+  pose proof (consulted_ok blob off len El) as Cok.
+  assert (Hin : In (t, (o, w)) (consulted blob off len)) by (eapply nth_error_In; exact Hnth).
+  rewrite Forall_forall in Cok. destruct (Cok _ Hin) as [Ht Hw]. cbn [fst snd] in Ht, Hw.
+  (* entry i of the RS-side results is the failed result, entry i of the replicated side is not *)
+  set (Rs := results_of s true blank fail blob off len) in *.
+  set (Ps := results_of s false [] [] blob off len) in *.
+  assert (HRi : nth_error Rs i = Some (failed_res w)).
+  { unfold Rs, results_of. rewrite nth_error_map, Hnth. cbn [option_map fst snd]. f_equal.
+    unfold read_tract. rewrite Hf. specialize (Hok t Ht). rewrite Hf in Hok.
+    apply (read_rs_too_many_down s k j e _ Hok blank fail o w Hd Hc Ho Hw). }
+  unfold R, P. rewrite !read_at_shape by assumption. fold Rs. fold Ps.
+  destruct (results_split Rs Ps F2) as [Heq | [pre [p [post [post' [HR HP]]]]]].
+  - exfalso. rewrite Heq in HRi. apply nth_error_In in HRi. rewrite Forall_forall in FR.
+    destruct (FR _ HRi) as [[H | H] _]; discriminate.
+  - assert (Hpre : Forall repl_like pre) by (rewrite HP in FR; apply Forall_app_l in FR; exact FR).
+    (* the split point is not after i *)
+    assert (Hli : (length pre <= i)%nat).
+    { destruct (le_lt_dec (length pre) i) as [H | H]; [exact H|]. exfalso.
+      rewrite HR in HRi. rewrite nth_error_app1 in HRi by exact H. apply nth_error_In in HRi.
+      rewrite Forall_forall in Hpre. destruct (Hpre _ HRi) as [[X | X] _]; discriminate. }
+    pose proof (csum_le_wanted pre Hpre) as L1.
+    assert (Epre : pre = firstn (length pre) Ps).
+    { rewrite HP. rewrite firstn_app, Nat.sub_diag, firstn_all. cbn [firstn]. symmetry. apply app_nil_r. }
+    pose proof (sum_wanted_firstn_mono Ps (length pre) i Hli) as L2. rewrite <- Epre in L2.
+    unfold Ps in L2 at 1. rewrite sum_wanted_results in L2.
+    destruct (fold_fail_closed_core pre p post post' (pad_all_of blob off len) Hpre) as [A [B [C D]]].
+    cbv zeta in A, B, C, D. rewrite HR, HP.
+    cbn [fst snd]. repeat split; try assumption.
+    rewrite B. lia.
 Qed.
